@@ -953,7 +953,20 @@ def exec_load(cx, head, tail):
             os.unlink(tmp)
         line = f"c17load ok:{READERS[fmt]} {kind} {hexs(fmt)} {1 if protein else 0} 0 | {hexs(data)}{extra}"
         return " ".join(line.split()), "adm-ok", None, False, "excluded/core-reader-" + core_all
-    g = guarded(lambda: cx.lm.load(fobj, fmt, protein=protein))
+    # the same request through the three spellings of the entry point (one per case, chosen by the data):
+    # load(file, format, protein=…), the Loader class itself, and the documented DEFAULTS (protein=False,
+    # format="jaspar") left out
+    route = (len(data) + len(fmt)) % 3
+
+    def open_it():
+        if route == 1:
+            return cx.lm.Loader(fobj, fmt, protein=True) if protein else cx.lm.Loader(fobj, fmt)
+        if route == 2 and not protein:
+            return cx.lm.load(fobj) if fmt == "jaspar" else cx.lm.load(fobj, fmt)
+        return cx.lm.load(fobj, fmt, protein=protein)
+
+    cx.out.stat(f"load/route/{('load', 'Loader', 'defaults')[route]}")
+    g = guarded(open_it)
     if kind in LATE:
         # the file object fails after the probe: ITS exception (or the ValueError of the format), from load()
         # or from the first record; never a panic, never SystemError (a result with an exception pending)
